@@ -20,7 +20,7 @@
 //
 // Mutation kinds (see genBase): bitflip, bitflip2, truncate, extend,
 // boundary-shift, swap, swap-own, strip, replace-signature, replace-address,
-// addr-subst, addr-delete, addr-insert, addr-decoded, addr-keylen, reseal.
+// addr-subst, addr-delete, addr-insert, addr-decoded, addr-keylen, wire, reseal.
 //
 // usage: vcheck C04 [-procs N] [-base name]      (master)
 //
@@ -37,6 +37,8 @@ import (
 	"encoding/json"
 	"flag"
 	"fmt"
+	"github.com/bartossh/Computantis/src/gossip"
+	"github.com/bartossh/Computantis/src/protobufcompiled"
 	"os"
 	"os/exec"
 	"runtime"
@@ -737,6 +739,39 @@ func genBase(g *gen, b *base, partners []*base) {
 		}
 	}
 
+	// --- mutations made in the WIRE form and brought back through the node's own wire decoder (what a peer can send):
+	// the amount written as (currency-k, supplementary+k*10^18), the timestamps shifted by a whole second in wire units,
+	// the weight bumped; everything else as the valid vertex carries it
+	wire := func(what, field string, mod func(pv *protobufcompiled.Vertex) bool) {
+		g.emit("wire", field, str(what+" (changed in the protobuf form, decoded by the node's wire decoder)"), func() accountant.Vertex {
+			pv := gossip.VerifVertexToProto(v)
+			if pv == nil || pv.Transaction == nil || !mod(pv) {
+				c := *v
+				c.Weight++ // not applicable to this base: fall back to a plain weight change (refused as well)
+				return c
+			}
+			return gossip.VerifProtoToVertex(pv)
+		})
+	}
+	for _, k := range []uint64{1, 2, 18} {
+		k := k
+		wire(fmt.Sprintf("amount written as currency-%d, supplementary+%d*10^18", k, k), "Transaction.Spice", func(pv *protobufcompiled.Vertex) bool {
+			sp := pv.Transaction.Spice
+			if sp == nil || sp.Currency < k || k > 18 {
+				return false
+			}
+			sp.Currency -= k
+			sp.SupplementaryCurrency += k * 1_000_000_000_000_000_000
+			return true
+		})
+	}
+	wire("transaction timestamp shifted by one second", "Transaction.CreatedAt", func(pv *protobufcompiled.Vertex) bool {
+		pv.Transaction.CreatedAt += 1_000_000_000
+		return true
+	})
+	wire("vertex timestamp shifted by one second", "CreatedAt", func(pv *protobufcompiled.Vertex) bool { pv.CreatedAt += 1_000_000_000; return true })
+	wire("weight increased by 2^32", "Weight", func(pv *protobufcompiled.Vertex) bool { pv.Weight += 1 << 32; return true })
+
 	// --- transaction field changed, transaction hash recomputed, vertex re-sealed by M (issuer signature is stale)
 	rs := func(fieldName, what string, mod func(c *accountant.Vertex)) {
 		g.emit("reseal", fieldName, str(what+"; transaction hash recomputed and vertex re-sealed by M"), func() accountant.Vertex {
@@ -1075,6 +1110,21 @@ func workerMain(shard, n int, only string) *wres {
 					i++
 					mv := m.mk()
 					h := encHash(b.State, &mv)
+					if h == b.h && m.kind == "wire" {
+						// the wire form was altered, yet the node's decoder maps it onto the valid vertex: the altered message
+						// is what gets admitted (the base is admissible)
+						res.Evaluations++
+						res.PerKind[m.kind]++
+						k := "C04.accepted/wire/" + m.field
+						if r, ok := res.Viol[k]; ok {
+							r.Count++
+						} else {
+							res.Viol[k] = &vrec{Idx: m.idx, Key: k, Predicate: "C04.mutant-rejected", Count: 1,
+								What:    fmt.Sprintf("a wire form of base %s/%s with altered field values (%s) is decoded by the node onto the valid vertex and admitted as such: the signatures are not checked against the values the message carries", b.State, b.Name, m.det()),
+								Witness: map[string]any{"state": b.State, "base": b.Name, "kind": m.kind, "field": m.field, "mutation": m.det()}}
+						}
+						continue
+					}
 					if h == b.h {
 						res.Trivial++
 						res.TrivialKind[m.kind]++
